@@ -437,7 +437,7 @@ fn do_table(kvs: &[Kv], geom: Geom, auts: &Arc<Vec<TableDfa>>, bmax: usize, wrap
 pub fn plan(tier: Tier) -> Plan {
     let mut p = Plan::new("C04", "model_checking");
     let thorough = tier.thorough();
-    p.rule = "FST x bounds x generated contract-abiding automata: every table DFA with 1..2 states (thorough: 3) over two byte classes, every accepting set, every sound can_match assignment (true where an accepting state is reachable, free elsewhere); search and search_with_state through raw Fst (Map/Set wrappers on small sets); oracle = independent run of the table over each model key incl. the reported state; plus shipped automata/combinators/Levenshtein and regex-automata dense DFAs against specification predicates. every composition of depth <= 2 of AlwaysMatch/Str/Subsequence under StartsWith/Complement/Union/Intersection (real combinator types) against the explicit product DFA; wide nodes (fan-out 2..256, five label layouts incl. gaps below 0xff) searched with every byte as one- and two-byte lower bound under AlwaysMatch/Subsequence/six 2-state table DFAs; operands also passed by reference (impl Automaton for &T); accept_eof is never overridden. non-trivial = distinct (automaton, FST) pairs with >= 2 keys".into();
+    p.rule = "FST x bounds x generated contract-abiding automata: every table DFA with 1..2 states (thorough: 3) over two byte classes, every accepting set, every sound can_match assignment (true where an accepting state is reachable, free elsewhere); search and search_with_state through raw Fst (Map/Set wrappers on small sets); oracle = independent run of the table over each model key incl. the reported state; plus shipped automata/combinators/Levenshtein and regex-automata dense DFAs against specification predicates. every composition of depth <= 2 of AlwaysMatch/Str/Subsequence under StartsWith/Complement/Union/Intersection (real combinator types) against the explicit product DFA; wide nodes (fan-out 2..256, five label layouts incl. gaps below 0xff) searched with every byte as one- and two-byte lower bound under AlwaysMatch/Subsequence/six 2-state table DFAs; operands also passed by reference (impl Automaton for &T); a finite family of 480 (thorough 2400) DFAs with 3..8 states and weakened-but-sound hints per class function over the complete universe of keys of length <= 8 over two bytes; accept_eof is never overridden. non-trivial = distinct (automaton, FST) pairs with >= 2 keys".into();
     p.assumptions = vec!["contract-abiding = deterministic table, sound can_match, default accept_eof".into()];
     let mut auts = all_dfas(1, ClassFn::IsA, false);
     auts.extend(all_dfas(2, ClassFn::IsA, false));
@@ -550,6 +550,29 @@ pub fn plan(tier: Tier) -> Plan {
                     }
                 }
             }));
+        }
+    }
+    // (e1) finite family of larger DFAs (3..8 states, weakened hints) over the
+    // complete binary universe of keys of length <= 8 (every path of <= 8 steps)
+    {
+        let nd = if thorough { 2400 } else { 480 };
+        for (ci, classes) in [ClassFn::IsA, ClassFn::Lt80].into_iter().enumerate() {
+            let fam = Arc::new(crate::dfa::family_dfas(nd, classes));
+            let alpha: [u8; 2] = if ci == 0 { [b'a', b'b'] } else { [0x00, 0xff] };
+            let mut keys: Vec<Key> = strings_over(&alpha, 8);
+            keys.sort();
+            let kvs = Arc::new(Pat::Lin3.apply(&keys));
+            for part in 0..16usize {
+                let fam = fam.clone();
+                let kvs = kvs.clone();
+                p.units.push(unit("complete-binary-universe-len<=8-x-family-of-3..8-state-dfas-(finite-family)", format!("dfa family classes {} part {}", ci, part), move |st, rep| {
+                    let auts: Vec<TableDfa> = fam.iter().skip(part).step_by(16).cloned().collect();
+                    st.states += auts.len() as u64;
+                    st.nontrivial += auts.len() as u64;
+                    st.count("family_dfas", auts.len() as u64);
+                    do_table(&kvs, (3, 3), &Arc::new(auts), 1, false, st, rep);
+                }));
+            }
         }
     }
     // (e2) wide nodes with gaps: every byte as lower bound of a search
